@@ -30,7 +30,8 @@ USE_CONTRACTS = True      # in-situ icontract monitors (vmon/contracts.py)
 DECIDING_COUNTERS = ["state_checks", "spatial_checks"]
 
 OPS = ["iloc", "loc", "mask", "head", "sort", "copy", "subset_with", "subset_without_active",
-       "subset_plain", "cx", "pickle", "concat", "set_geometry", "dask", "parquet", "dask_ops", "reconstruct"]
+       "subset_plain", "cx", "pickle", "concat", "set_geometry", "dask", "parquet", "dask_ops", "reconstruct",
+       "set_geometry_alias"]
 
 
 def shards(tier, seed):
@@ -213,6 +214,19 @@ def check_case(ctx, case):
         etb = np.asarray(t[a].array.total_bounds, dtype=float).tolist()
         if not all((x != x and y != y) or x == y for x, y in zip(tbd, etb)):
             viol("spatial-op-wrong-column", "active-geometry:dask-total_bounds", etb, tbd)
+        # build_sindex keeps the active geometry of the collection and of its partitions
+        with dask.config.set(scheduler="synchronous"):
+            ok_, rb, tb_ = ctx.guarded(lambda: (lambda b_: (
+                b_.geometry.name,
+                b_.map_partitions(lambda p_: pd.Series([p_.geometry.name]), meta=pd.Series([""])).compute().tolist(),
+                sorted(b_.cx[x0:x1, y0:y1].compute()["rid"].tolist())))(ddf.build_sindex(page_size=2)))
+        if not ok_:
+            rec_raise("dask-build_sindex", rb, tb_)
+        else:
+            ctx.count("state_checks")
+            ctx.sig("dask-build_sindex")
+            if rb[0] != a or any(x != a for x in rb[1]) or rb[2] != exp_cx:
+                viol("active-changed", "active-geometry:dask-build_sindex", [a, exp_cx], list(rb))
         # deriving a frame with another active geometry must not alter the (persisted) original
         others = [c for c in geo_cols(d) if c != a]
         if others:
@@ -270,6 +284,17 @@ def check_case(ctx, case):
                 new = df.sort_values("val") if r.random() < 0.5 else df.sort_index(ascending=False)
             elif op == "copy":
                 new = df.copy()
+            elif op == "set_geometry_alias":
+                # a frame derived with set_geometry(<same column>) is a different frame: changing its
+                # active geometry in place must not reach back into the original
+                others_ = [c for c in geo_cols(df) if c != act]
+                h = df.set_geometry(act)
+                if others_:
+                    h.set_geometry(others_[0], inplace=True)
+                    if h.geometry.name != others_[0]:
+                        viol("active-changed", "active-geometry:set_geometry-inplace-ignored", others_[0],
+                             h.geometry.name)
+                new = df
             elif op == "reconstruct":
                 new = GeoDataFrame(df)                      # a geo frame built from a geo frame
             elif op == "subset_with":
